@@ -254,8 +254,10 @@ def finish(rep, meta, t0, explanation, assumptions, nd):
         'violations': len(viol),
     }
     ev['coverage'].update(meta or {})
-    os.makedirs(os.path.join(VERIF, 'evidence'), exist_ok=True)
-    with open(os.path.join(VERIF, 'evidence', '%s.json' % rep.prop), 'w') as f:
+    # evidence/ describes /repo; a run against a scratch copy (self-test, seeded-change evaluation) must not overwrite it
+    evdir = os.path.join(VERIF, 'evidence') if 'VERIF_REPO' not in os.environ else os.path.join(VERIF, '.work', 'evidence-scratch')
+    os.makedirs(evdir, exist_ok=True)
+    with open(os.path.join(evdir, '%s.json' % rep.prop), 'w') as f:
         json.dump(ev, f, indent=1, sort_keys=True, default=lambda x: sorted(x) if isinstance(x, set) else str(x))
     print('%s: %d obligations, %d discharged, %d violation(s), %d known finding(s); %d functions in %d unit(s); %.1fs' %
           (rep.prop, len(obs), ev['coverage']['discharged'], len(viol), len(kf), rep.functions, len(rep.units), ev['wall_s']))
